@@ -92,15 +92,11 @@ Definition sf_to_Z (x : spec_float) : Z :=
   | _ => 0
   end.
 
-(* flint: int(float(n)) if float(n) == int(float(n)) else float(n); OverflowError -> n *)
+(* flint: an int is returned as it is; otherwise
+   int(float(n)) if float(n) == int(float(n)) else float(n); OverflowError -> n *)
 Definition flint (n : num) : res num :=
   match n with
-  | NI z =>
-      match int_to_float z with
-      | FOk f => Ok (NI (sf_to_Z (Prim2SF f)))
-      | FOverflow => Ok (NI z)
-      | FRange => Err eModelRange
-      end
+  | NI z => Ok (NI z)
   | NF f =>
       if PrimFloat.is_nan f then Err eValue                    (* int(nan) raises ValueError *)
       else if PrimFloat.is_infinity f then Ok (NF f)           (* int(inf): OverflowError, caught *)
